@@ -57,6 +57,17 @@ pub struct C20 {
 	scenarios: u32,
 	max_scenarios: u32,
 	n_schedules: u32,
+	/// scripted tier-2 scenario: a send with a time-to-live is finalized while a
+	/// refresh runs and the block that reaches its cutoff arrives in the same window
+	ttl_race: Option<TtlRace>,
+	ttl_races_left: u32,
+}
+
+struct TtlRace {
+	a: usize,
+	b: usize,
+	stage: u32,
+	d: Option<uuid::Uuid>,
 }
 
 fn copy_dir(src: &str, dst: &str) {
@@ -147,6 +158,8 @@ impl C20 {
 			gen,
 			history_len,
 			scenarios: 0,
+			ttl_race: None,
+			ttl_races_left: if run.rng.chance(1, 3) { 1 } else { 0 },
 			max_scenarios: if run.thorough { 3 } else { 2 },
 			n_schedules: if run.thorough { 40 } else { 14 },
 		}
@@ -377,13 +390,32 @@ impl C20 {
 					}
 				}
 				"finalize" => {
-					let e = entries.iter().find(|e| matches!(e.tx_type, TxLogEntryType::TxSent | TxLogEntryType::TxReceived));
+					// the entry may have been cancelled since (expiry): what finalize recorded
+					// in it must still be there
+					let e = entries.iter().find(|e| {
+						matches!(
+							e.tx_type,
+							TxLogEntryType::TxSent
+								| TxLogEntryType::TxReceived
+								| TxLogEntryType::TxSentCancelled
+								| TxLogEntryType::TxReceivedCancelled
+						)
+					});
 					if let Some(e) = e {
 						if e.kernel_excess.is_none() {
 							return Some(("finalize_excess_lost".into(), format!("finalized transaction {} has no kernel excess at the end", id)));
 						}
+						let final_excess = o.slate.as_ref().and_then(|s| s.tx.as_ref()).map(|t| t.kernels()[0].excess);
+						if let (Some(fe), Some(ke)) = (final_excess, e.kernel_excess) {
+							if fe != ke {
+								return Some((
+									"finalize_excess_stale".into(),
+									format!("finalize_tx of {} returned Ok but the log entry ({:?}) holds a kernel excess other than the final transaction's", id, e.tx_type),
+								));
+							}
+						}
 						if let Some(p) = &e.payment_proof {
-							if e.tx_type == TxLogEntryType::TxSent && p.sender_signature.is_none() {
+							if matches!(e.tx_type, TxLogEntryType::TxSent | TxLogEntryType::TxSentCancelled) && p.sender_signature.is_none() {
 								return Some(("finalize_proof_lost".into(), format!("finalized transaction {} lost its sender proof signature", id)));
 							}
 						}
@@ -410,6 +442,61 @@ impl C20 {
 			}
 		}
 		None
+	}
+
+	fn ttl_race_step(&mut self, run: &mut Run) -> Option<Step> {
+		let r = self.ttl_race.as_mut()?;
+		let deal = r.d.and_then(|i| run.model.deal_of(&i)).map(|d| run.model.deals[d].clone());
+		let tip = run.ex.world.chain.height();
+		let op = match r.stage {
+			0 => {
+				let mut a = crate::ops::SendArgs::simple(run.rng.range(2, 30) * 1_000_000_000 + run.rng.below(1000));
+				a.ttl = Some(run.rng.range(2, 4));
+				a.proof_to = if run.rng.chance(1, 2) { Some(r.b) } else { None };
+				Op::InitSend { w: r.a, args: a }
+			}
+			1 => Op::Receive { w: r.b, m: deal.as_ref()?.m1, dest: None, enc: crate::ops::Enc::Mem },
+			2 => Op::Lock { w: r.a, m: deal.as_ref()?.m1 },
+			3 => {
+				// bring the chain to one block below the cutoff
+				let c = deal.as_ref()?.ttl_cutoff;
+				if c == 0 || tip + 1 > c {
+					return None;
+				}
+				if tip + 1 == c {
+					r.stage += 1;
+					return self.ttl_race_step(run);
+				}
+				Op::Mine { w: None, n: (c - 1 - tip) as u32, txs: false }
+			}
+			4 => Op::Refresh { w: r.a },
+			5 => {
+				let d = deal.as_ref()?;
+				if d.ttl_cutoff != tip + 1 || d.m2.is_none() {
+					return None;
+				}
+				// the refresh runs k lock sections / node calls first, then the block
+				// arrives, then the seeded scheduler decides
+				let k = run.rng.below(9) as usize;
+				let mut schedule = vec![0usize; k];
+				schedule.push(2);
+				let tasks = vec![
+					TaskSpec { kind: "refresh".into(), m: None, args: None, del: false },
+					TaskSpec { kind: "finalize".into(), m: d.m2, args: None, del: false },
+					TaskSpec { kind: "node_mine".into(), m: None, args: None, del: false },
+				];
+				run.cov.evaluations += 1;
+				run.cov.keys.insert(crate::rng::mix(&[run.seed, 0x771, k as u64]));
+				run.cov.probe("tier2_ttl_race_scenario");
+				Op::Custom {
+					name: "concurrent".into(),
+					args: json!({"w": r.a, "tasks": tasks, "seed": run.rng.below(1 << 40), "schedule": schedule}),
+				}
+			}
+			_ => return None,
+		};
+		r.stage += 1;
+		Some(Step::new(op))
 	}
 
 	/// choose the scenario's tasks from the pre-state
@@ -619,6 +706,27 @@ impl Prop for C20 {
 		if self.gen.in_setup() || run.trace.len() < self.history_len {
 			return self.gen.next(run);
 		}
+		if self.ttl_race.is_some() {
+			match self.ttl_race_step(run) {
+				Some(s) => return Some(s),
+				None => self.ttl_race = None,
+			}
+		}
+		if self.ttl_races_left > 0 && run.rng.chance(1, 3) {
+			let nw = run.ex.world.wallets.len();
+			if nw >= 2 && !run.ex.world.chain.is_down() {
+				let a = run.rng.idx(nw);
+				let b = (a + 1 + run.rng.idx(nw - 1)) % nw;
+				if run.ex.world.is_open(a) && run.ex.world.is_open(b) {
+					self.ttl_races_left -= 1;
+					self.ttl_race = Some(TtlRace { a, b, stage: 0, d: None });
+					if let Some(s) = self.ttl_race_step(run) {
+						return Some(s);
+					}
+					self.ttl_race = None;
+				}
+			}
+		}
 		if self.scenarios >= self.max_scenarios {
 			return None;
 		}
@@ -688,6 +796,16 @@ impl Prop for C20 {
 	fn after(&mut self, run: &mut Run, step: &Step, out: &StepOut) -> Vec<Violation> {
 		let mut v = vec![];
 		self.gen.feedback(run, step, out);
+		if let Some(r) = self.ttl_race.as_mut() {
+			if let (Op::InitSend { .. }, Some(m)) = (&step.op, out.new_msg) {
+				if r.stage == 1 {
+					r.d = Some(run.ex.msgs[m].slate.id);
+				}
+			}
+			if !out.ok && !matches!(step.op, Op::Refresh { .. } | Op::Mine { .. }) {
+				self.ttl_race = None;
+			}
+		}
 		if let Op::Custom { name, .. } = &step.op {
 			if name == "concurrent" && out.ok {
 				let r: Value = serde_json::from_str(&out.note).unwrap_or(Value::Null);
